@@ -665,9 +665,24 @@ def check(repo):
                 base = fte.name_term(name, mn)
                 init = base[2] if base[0] == "cont" else base
                 dbp = ("param", enc.params[2])
-                is_db = init == dbp or (init[0] == "call" and init[1].split(".")[-1] in ("deepcopy", "dict", "copy") and init[2] and init[2][0] == dbp) \
-                    or (init[0] == "mcall" and init[1] == dbp and init[2] == "copy")
-                if not is_db:
+
+                def is_db(x, depth=0):
+                    if depth > 6 or not isinstance(x, tuple):
+                        return False
+                    if x == dbp:
+                        return True
+                    if x[0] == "call" and x[1].split(".")[-1] in ("deepcopy", "dict", "copy") and x[2]:
+                        return is_db(x[2][0], depth + 1)
+                    if x[0] == "mcall" and x[2] == "copy":
+                        return is_db(x[1], depth + 1)
+                    if x[0] == "phi":
+                        return any(is_db(y, depth + 1) for y in x[1])
+                    if x[0] == "ifexp":
+                        return is_db(x[2], depth + 1) or is_db(x[3], depth + 1)
+                    if x[0] == "cont":
+                        return is_db(x[2], depth + 1)
+                    return False
+                if not is_db(init):
                     continue  # not a (copy of the) database
                 tt, st = payload
                 kt = fte.term(tt.slice, mn)
